@@ -780,6 +780,110 @@ def presentation_matrix_scenarios(rng, quick, formats):
     return execs
 
 
+def history_scenarios(rng, quick, formats, n_per_format):
+    """multi-step property histories before the judged requests: the same alpha map set again at another origin
+       (including new_y == old_x, new_x == old_y, swapped, unchanged), detached and re-attached, replaced by another
+       map; clips replaced by smaller / larger / disjoint / empty / NULL ones; source clipping and client-clip toggled
+       repeatedly; transform / repeat changed on the sources.  The Setup event logs the FINAL properties, from which the
+       specification computes the region; two rounds of requests per execution."""
+    W, H = MW, MH
+    execs = []
+    k = 0
+
+    def clip_line(role):
+        r = rng.random()
+        if r < 0.12:
+            return "C %s -1" % role
+        if r < 0.2:
+            return "C %s 0" % role
+        c = rng.choice([[[2, 1, 10, 5]], [[4, 2, 7, 4]], [[-1, -1, W + 1, H + 1]], [[0, 0, 3, 6], [9, 0, 12, 6]],
+                        [[0, 0, 12, 2], [0, 4, 6, 6]], [[W, 0, W + 3, H]], [[1, 1, 5, 5], [3, 2, 11, 6], [6, 0, 8, 1]]])
+        return "C %s %d %s" % (role, len(c), " ".join(str(v) for b in c for v in b))
+
+    for fmt in formats:
+        st = min_stride(fmt, W) + (4 if k % 2 else 0)
+        gb, ga = 2 * st + 16, 2 * st + 32
+        for si in range(n_per_format):
+            k += 1
+            lines = ["R hi_%s_%d" % (fmt, k)]
+            lines.append("I dst %s %d %d %d %d %d %d" % (fmt, W, H, st, gb, ga, rng.randrange(1 << 30)))
+            lines.append(rng.choice(["I src solid 65535 16384 255 65535", "I src solid 8192 0 4096 32768",
+                                     "I src bits a8r8g8b8 %d %d %d 1" % (W, H, rng.randrange(1 << 30)),
+                                     "I src bits x8r8g8b8 5 4 %d 2" % rng.randrange(1 << 30), "I src linear 1 65535 65535"]))
+            have_mask = rng.random() < 0.4
+            if have_mask:
+                lines.append(rng.choice(["I mask bits a8 %d %d %d 0" % (W + 1, H + 1, rng.randrange(1 << 30)),
+                                         "I mask solid 0 0 0 65535", "I mask bits x8r8g8b8 3 3 %d 1" % rng.randrange(1 << 30)]))
+            for g in GLYPHS:
+                lines.append("G %d %s %d %d %d %d %d" % (g[0], g[1], g[2], g[3], g[4], g[5], rng.randrange(1 << 30)))
+            ox, oy = rng.randint(0, 4), rng.randint(0, 3)
+            have_alpha = False
+            roles = ["src"] + (["mask"] if have_mask else [])
+            for rnd in range(2):
+                steps = rng.randint(3, 6)
+                if rnd == 0 or rng.random() < 0.7:
+                    # alpha-map history on the destination
+                    if not have_alpha:
+                        lines.append("A dst %s %d %d %d %d %d" % (rng.choice(["a8", "a8", "a4", "a1"]), rng.randint(4, 10),
+                                                                  rng.randint(2, 5), ox, oy, rng.randrange(1 << 30)))
+                        have_alpha = True
+                    for _ in range(rng.randint(1, 3)):
+                        how = rng.choice(["yx", "xy", "swap", "same", "rand", "rand", "detach", "replace"])
+                        if how == "detach":
+                            lines.append("AD dst")
+                            if rng.random() < 0.8:
+                                how = rng.choice(["yx", "xy", "swap", "same", "rand"])
+                            else:
+                                have_alpha = False
+                                continue
+                        if how == "replace":
+                            ox, oy = rng.randint(-1, 4), rng.randint(-1, 3)
+                            lines.append("A dst %s %d %d %d %d %d" % (rng.choice(["a8", "a4"]), rng.randint(3, 12), rng.randint(2, 6),
+                                                                      ox, oy, rng.randrange(1 << 30)))
+                            continue
+                        if how == "yx":
+                            oy = ox                      # new y takes the old x
+                        elif how == "xy":
+                            ox = oy
+                        elif how == "swap":
+                            ox, oy = oy, ox
+                        elif how == "rand":
+                            ox, oy = rng.randint(-2, 5), rng.randint(-2, 4)
+                        lines.append("AO dst %d %d" % (ox, oy))
+                for _ in range(steps):
+                    what = rng.choice(["cdst", "cdst", "csrc", "csrc", "flags", "flags", "flags", "T", "P", "asrc"])
+                    role = rng.choice(roles)
+                    if what == "cdst":
+                        lines.append(clip_line("dst"))
+                    elif what == "csrc":
+                        lines.append(clip_line(role))
+                    elif what == "flags":
+                        lines.append("F %s %d %d" % (role, rng.choice([0, 1, 1]), rng.choice([0, 1, 1])))
+                    elif what == "T":
+                        lines.append("T %s %d %d" % (role, rng.choice([0, 0, 1, -2]), rng.choice([0, 1, 0])))
+                    elif what == "P":
+                        lines.append("P %s %d" % (role, rng.choice([0, 1, 2, 3])))
+                    elif what == "asrc" and "bits a8r8g8b8" in lines[2]:
+                        lines.append("A src a8 %d %d %d %d" % (W, H, rng.randint(-1, 2), rng.randint(-1, 2)))
+                        lines.append("AO src %d %d" % (rng.randint(-1, 2), rng.randint(-1, 2)))
+                # make sure the final source clip state is decided by the last setters, then log it
+                if rng.random() < 0.6:
+                    lines.append("F src 1 1")
+                lines.append("S")
+                soff = rng.choice([(0, 0), (1, 0), (-1, 2)])
+                for b in ([0, 0, W, H], [-1, -1, W + 1, H + 1], rng.choice([[2, 1, 11, 5], [0, 2, 12, 6]])):
+                    a = (b[0] - soff[0], b[1] - soff[1], b[0], b[1], b[0], b[1], b[2] - b[0], b[3] - b[1])
+                    lines.append("region %d %d %d %d %d %d %d %d" % a)
+                    lines.append("composite %s %d %d %d %d %d %d %d %d" % ((rng.choice(["SRC", "SRC", "OVER", "CLEAR", "IN", "ADD"]),) + a))
+                col = colour(rng)
+                lines.append("fillboxes %s %s 1 0 0 %d %d" % (rng.choice(["SRC", "CLEAR", "OVER"]), " ".join(map(str, col)), W, H))
+                lines.append("glyphsnm %s %d %d 0 0 3 1 3 3 0 6 4 2 9 1" % (rng.choice(["OVER", "SRC", "ADD"]), -soff[0], -soff[1]))
+                lines.append("ctraps %s a8 %d %d 0 0 1 %s" % (rng.choice(["OVER", "SRC", "ADD"]), -soff[0], -soff[1],
+                                                             " ".join(map(str, trapezoid_for(rng, [0, 0, W, H], slant=False)))))
+            execs.append(lines)
+    return execs
+
+
 # ------------------------------------------------------------------------------------------
 
 def run_driver(exe, script_lines, wd, tag, chain):
@@ -954,7 +1058,9 @@ def run(prop, args):
             ["a1", "a4", "a8", "r8g8b8", "r5g6b5", "a8r8g8b8", "x8r8g8b8", "a1r1g1b1"]
         pfm = [rng.choice(["a8r8g8b8", "r5g6b5", "a8", "x8r8g8b8"])] if quick else ["a8r8g8b8", "x8r8g8b8", "r5g6b5", "a8", "a4", "r8g8b8"]
         directed = fill_matrix_scenarios(rng, quick, mfm, "frame") + draw_matrix_scenarios(rng, quick, dfm) \
-            + presentation_matrix_scenarios(rng, quick, pfm)
+            + presentation_matrix_scenarios(rng, quick, pfm) \
+            + history_scenarios(rng, quick, [rng.choice(["a8r8g8b8", "r5g6b5"]), rng.choice(["a8", "a4", "r8g8b8"])] if quick
+                                else ["a8r8g8b8", "x8r8g8b8", "r5g6b5", "a8", "a4", "a1", "r8g8b8"], 30 if quick else 150)
         chk.extra["directed_matrix_executions"] = len(directed)
         nrand = len(execs)
         execs += directed
